@@ -3,6 +3,7 @@
 //! Only what a client can see is compared (the model's answer does not depend on segmentation — proved — so the
 //! kernel's coalescing of our writes is harmless).
 use crate::common::*;
+use crate::c02t::{fnv, unhexz};
 use humphrey::http::cors::Cors;
 use humphrey::http::method::Method;
 use humphrey::http::{Request, Response, StatusCode};
@@ -98,7 +99,9 @@ fn add_default(mut app: App<()>, spec: &str) -> Option<App<()>> {
     Some(app)
 }
 
-fn check_date(v: &[u8]) -> bool {
+/// `start`: when the exchange began (Unix seconds). A date is accepted from 5 s before that to 5 s after now: a long
+/// session legitimately spans several seconds.
+fn check_date(v: &[u8], start: i64) -> bool {
     let s = match std::str::from_utf8(v) { Ok(s) => s, Err(_) => return false };
     if s.len() != 29 || !s.ends_with(" GMT") { return false; }
     const DAYS: [&str; 7] = ["Sun", "Mon", "Tue", "Wed", "Thu", "Fri", "Sat"];
@@ -117,11 +120,11 @@ fn check_date(v: &[u8]) -> bool {
     let days = era * 146097 + doe - 719468;
     let ts = days * 86400 + h * 3600 + mi * 60 + se;
     let now = std::time::SystemTime::now().duration_since(std::time::UNIX_EPOCH).unwrap().as_secs() as i64;
-    (ts - now).abs() <= 10 && DAYS[((days + 4).rem_euclid(7)) as usize] == &s[0..3]
+    ts >= start.min(now) - 5 && ts <= now + 5 && DAYS[((days + 4).rem_euclid(7)) as usize] == &s[0..3]
 }
 
 /// Every `Date: …` header line value → `D` (or `BAD-DATE`).
-fn normalise_dates(w: &[u8]) -> Vec<u8> {
+fn normalise_dates(w: &[u8], start_time: i64) -> Vec<u8> {
     let key = b"\r\nDate: ";
     let mut out = Vec::with_capacity(w.len());
     let mut i = 0;
@@ -130,7 +133,7 @@ fn normalise_dates(w: &[u8]) -> Vec<u8> {
             let start = i + key.len();
             if let Some(len) = w[start..].windows(2).position(|x| x == b"\r\n") {
                 out.extend_from_slice(key);
-                out.extend(if check_date(&w[start..start + len]) { &b"D"[..] } else { &b"BAD-DATE"[..] });
+                out.extend(if check_date(&w[start..start + len], start_time) { &b"D"[..] } else { &b"BAD-DATE"[..] });
                 i = start + len;
                 continue;
             }
@@ -141,24 +144,90 @@ fn normalise_dates(w: &[u8]) -> Vec<u8> {
     out
 }
 
-fn exchange(port: u16, chunks: &[Vec<u8>]) -> Vec<u8> {
-    let mut s = match TcpStream::connect(("127.0.0.1", port)) { Ok(s) => s, Err(_) => return b"CONNECT-FAILED".to_vec() };
-    s.set_nodelay(true).ok();
-    for c in chunks {
-        if s.write_all(c).is_err() { break; }
-        std::thread::sleep(Duration::from_millis(2));
-    }
-    s.set_read_timeout(Some(Duration::from_millis(300))).ok();
-    let mut got = Vec::new();
-    let mut buf = [0u8; 65536];
-    loop {
-        match s.read(&mut buf) {
-            Ok(0) => break,
-            Ok(n) => got.extend_from_slice(&buf[..n]),
-            Err(_) => break, // silence: the server keeps the connection open
+/// The event script of `harness/src/c01.rs::expand_events`, as the segments a client writes (pauses are not used here).
+fn expand_events(s: &str) -> Vec<Vec<u8>> {
+    let mut chunks: Vec<Vec<u8>> = Vec::new();
+    if s == "-" { return chunks; }
+    for e in s.split(',') {
+        if let Some(h) = e.strip_prefix('d') {
+            match h.split_once('*') {
+                None => chunks.push(unhexz(h)),
+                Some((h, n)) => { let b = unhexz(h); for _ in 0..n.parse::<usize>().unwrap_or(0).min(1_000_000) { chunks.push(b.clone()); } }
+            }
+        } else if let Some(h) = e.strip_prefix('b') {
+            for x in unhexz(h) { chunks.push(vec![x]); }
+        } else if let Some(r) = e.strip_prefix('s') {
+            if let Some((n, h)) = r.split_once(':') {
+                let n: usize = n.parse().unwrap_or(0);
+                let b = unhexz(h);
+                if n == 0 { chunks.push(b); } else { for c in b.chunks(n) { chunks.push(c.to_vec()); } }
+            }
         }
     }
-    got
+    chunks
+}
+
+/// Write the segments, reading at the same time (a long session's responses must not pile up in the socket buffers while
+/// the client is still writing: the server would stop reading and both ends would wait for each other).
+/// Phase 1: until everything is written and the server has been silent for `window` — what arrives is `before`.
+/// Phase 2: the client closes its sending direction, so the server meets end of stream after the last request and closes;
+/// what arrives now is `after`, up to end of stream (or 60 s of silence: a server that neither answers nor closes).
+fn attempt(port: u16, chunks: &[Vec<u8>], window: Duration) -> (Vec<u8>, Vec<u8>) {
+    let s = match TcpStream::connect(("127.0.0.1", port)) { Ok(s) => s, Err(_) => return (b"CONNECT-FAILED".to_vec(), Vec::new()) };
+    s.set_nodelay(true).ok();
+    let mut rd = match s.try_clone() { Ok(r) => r, Err(_) => return (b"CONNECT-FAILED".to_vec(), Vec::new()) };
+    rd.set_read_timeout(Some(Duration::from_millis(50))).ok();
+    let done = std::sync::Mutex::new(None::<std::time::Instant>);
+    std::thread::scope(|sc| {
+        sc.spawn(|| {
+            let mut s = &s;
+            // many small segments: pause after each so that they travel separately, but do not let thousands of pauses add up
+            let pause = if chunks.len() > 2000 { 0 } else if chunks.len() > 400 { 1 } else { 2 };
+            for c in chunks {
+                if s.write_all(c).is_err() { break; }
+                if pause > 0 { std::thread::sleep(Duration::from_millis(pause)); } else { std::thread::yield_now(); }
+            }
+            *done.lock().unwrap() = Some(std::time::Instant::now());
+        });
+        let (mut before, mut after) = (Vec::new(), Vec::new());
+        let mut buf = vec![0u8; 65536];
+        let mut last = std::time::Instant::now();
+        let mut closed = false;
+        loop {
+            match rd.read(&mut buf) {
+                Ok(0) => break,
+                Ok(n) => { if closed { after.extend_from_slice(&buf[..n]); } else { before.extend_from_slice(&buf[..n]); } last = std::time::Instant::now(); }
+                Err(e) if matches!(e.kind(), std::io::ErrorKind::WouldBlock | std::io::ErrorKind::TimedOut | std::io::ErrorKind::Interrupted) => {
+                    if let Some(t) = *done.lock().unwrap() {
+                        if !closed && t.elapsed() >= window && last.elapsed() >= window {
+                            let _ = s.shutdown(std::net::Shutdown::Write);
+                            closed = true;
+                            last = std::time::Instant::now();
+                        } else if closed && last.elapsed() >= Duration::from_secs(60) {
+                            break;
+                        }
+                    }
+                }
+                Err(_) => break,
+            }
+        }
+        (before, after)
+    })
+}
+
+/// What the server sent while the connection was open in both directions. A response that arrives only after the client
+/// has closed its sending direction is either late (a loaded machine can delay a response by more than any reasonable
+/// silence limit) or was waiting for that close (a server that wants more input before it answers a complete request): the
+/// exchange is repeated with a longer silence limit, and what is still missing before the close on the last attempt counts
+/// as not sent. On an idle machine every exchange ends in the first attempt, 300 ms after the last byte.
+fn exchange(port: u16, chunks: &[Vec<u8>]) -> Vec<u8> {
+    let mut before = Vec::new();
+    for window in [300u64, 2000, 8000] {
+        let (b, after) = attempt(port, chunks, Duration::from_millis(window));
+        before = b;
+        if after.is_empty() { break; }
+    }
+    before
 }
 
 pub fn run(input: &str, output: &str) {
@@ -182,21 +251,26 @@ pub fn run(input: &str, output: &str) {
         for _ in 0..200 { if TcpStream::connect(("127.0.0.1", port)).is_ok() { break; } std::thread::sleep(Duration::from_millis(5)); }
         ports.insert(f[1].clone(), port);
     }
+    // the cases are dealt round-robin to the client threads (the expensive ones sit next to each other in the input)
+    let one = |f: &Vec<String>| -> String {
+        if f.len() < 6 { return "UNSUPPORTED".to_string(); }
+        let port = match ports.get(&f[1]) { Some(p) => *p, None => return "UNSUPPORTED".to_string() };
+        let chunks: Vec<Vec<u8>> = expand_events(&f[3]);
+        let start = std::time::SystemTime::now().duration_since(std::time::UNIX_EPOCH).unwrap().as_secs() as i64;
+        let got = exchange(port, &chunks);
+        let n = normalise_dates(&got, start);
+        // long byte streams (long sessions, large echoed bodies) are compared by length and FNV-1a hash
+        format!("W[{}]", if n.is_empty() { "~".to_string() } else if n.len() > 8192 { format!("#{}:{:016x}", n.len(), fnv(&n)) } else { hex(&n) })
+    };
     let results: Vec<String> = std::thread::scope(|sc| {
         let nthreads = 12;
-        let chunk = (lines.len() + nthreads - 1) / nthreads;
-        let hs: Vec<_> = lines.chunks(chunk.max(1)).map(|part| {
-            let ports = &ports;
-            sc.spawn(move || part.iter().map(|f| {
-                if f.len() < 6 { return "UNSUPPORTED".to_string(); }
-                let port = match ports.get(&f[1]) { Some(p) => *p, None => return "UNSUPPORTED".to_string() };
-                let chunks: Vec<Vec<u8>> = if f[3] == "-" { vec![] } else { f[3].split(',').filter_map(|e| e.strip_prefix('d').map(unhex)).collect() };
-                let got = exchange(port, &chunks);
-                let n = normalise_dates(&got);
-                format!("W[{}]", if n.is_empty() { "~".to_string() } else { hex(&n) })
-            }).collect::<Vec<_>>())
+        let (lines, one) = (&lines, &one);
+        let hs: Vec<_> = (0..nthreads).map(|t| {
+            sc.spawn(move || lines.iter().enumerate().filter(|(i, _)| i % nthreads == t).map(|(i, f)| (i, one(f))).collect::<Vec<_>>())
         }).collect();
-        hs.into_iter().flat_map(|h| h.join().unwrap()).collect()
+        let mut all: Vec<(usize, String)> = hs.into_iter().flat_map(|h| h.join().unwrap()).collect();
+        all.sort_by_key(|(i, _)| *i);
+        all.into_iter().map(|(_, r)| r).collect()
     });
     token.cancel();
     std::fs::write(output, results.join("\n") + "\n").unwrap();
